@@ -325,17 +325,6 @@ theorem find_entry (m : Msg) (e : Entry) (he : entryOf m = some e) :
 
 /-! ### `Message::read ∘ Message::write` -/
 
-/-- in-range messages: the payload is in range for its codec (including what the `validate()` of
-    its arm demands), and its size fits the header's `u32` and — except for `block` — the
-    `MAX_PAYLOAD_SIZE` limit `Message::read` enforces. -/
-def Msg.InRange (m : Msg) : Prop :=
-  match entryOf m with
-  | none => False
-  | some e =>
-    match e.body with
-    | none => True
-    | some c => c.wf m ∧ c.size m < 2 ^ 32 ∧ (e.cmd = eBlock.cmd ∨ c.size m ≤ MAX_PAYLOAD_SIZE)
-
 theorem headerSize_eq : HEADER_SIZE = 24 := by decide
 
 theorem checksum_len (H : Bytes → Bytes) (hH : ∀ x, (H x).length = 32) (p : Bytes) :
